@@ -275,6 +275,11 @@ class ExprMixin:
                 out.append((s, VReal(-v.t) if isinstance(v, VReal) else VInt(-to_int(v))))
             elif isinstance(node.op, ast.UAdd):
                 out.append((s, v))
+            elif isinstance(node.op, ast.Invert) and isinstance(self.deref(v, s), VSeq) and isinstance(self.deref(v, s).etype, TBool):
+                m = self.deref(v, s)
+                r = VSeq(m.len, lambda k, m=m: VBool(z3.Not(m.elem(k).t)), BOOL)
+                r.kind = m.kind
+                out.append((s, r))
             else:
                 raise Unsupported("unary op", node)
         return out
@@ -306,6 +311,9 @@ class ExprMixin:
             return r
         if isinstance(a, VStr) or isinstance(b, VStr):
             return [(st, VStr(t=fresh(STR, "strop").t))]
+        if isinstance(op, (ast.BitXor, ast.BitAnd, ast.BitOr)) and isinstance(a, VBool) and isinstance(b, VBool):
+            f = {ast.BitXor: z3.Xor, ast.BitAnd: z3.And, ast.BitOr: z3.Or}[type(op)]
+            return [(st, VBool(f(a.t, b.t)))]
         real = isinstance(a, VReal) or isinstance(b, VReal)
         if isinstance(op, ast.Div):
             x, y = to_real(a), to_real(b)
@@ -417,11 +425,27 @@ class ExprMixin:
         out = []
         operands = [node.left] + list(node.comparators)
         for s, vals in self.ev_seq(operands, st):
+            if len(node.ops) == 1:
+                out.append((s, self.compare_val(node.ops[0], vals[0], vals[1], s, node)))
+                continue
             conj = []
             for op, a, b in zip(node.ops, vals, vals[1:]):
                 conj.append(self.compare(op, a, b, s, node))
             out.append((s, VBool(z3.And(conj) if len(conj) > 1 else conj[0])))
         return out
+
+    def compare_val(self, op, a, b, st, node):
+        """comparison result as a value: elementwise for tensors / numpy arrays"""
+        da, db = self.deref(a, st), self.deref(b, st)
+        for x, y, flip in ((da, db, False), (db, da, True)):
+            if isinstance(x, VSeq) and x.kind is not None and isinstance(y, (VInt, VReal, VBool)) and \
+                    isinstance(op, (ast.Eq, ast.NotEq, ast.Lt, ast.LtE, ast.Gt, ast.GtE)) and \
+                    self.decide(st, z3.Or(x.kind == 1, x.kind == 2)) is True:
+                r = VSeq(x.len, lambda k, x=x, y=y, flip=flip: VBool(self.compare(op, y, x.elem(k), st, node) if flip
+                                                                     else self.compare(op, x.elem(k), y, st, node)), BOOL)
+                r.kind = x.kind
+                return r
+        return VBool(self.compare(op, a, b, st, node))
 
     def compare(self, op, a, b, st, node):
         a = a if isinstance(a, VRef) and isinstance(st.heap.get(a.oid), HObj) else self.deref(a, st)
@@ -572,6 +596,11 @@ class ExprMixin:
             return self.call(bm, [idx], {}, st, node)
         if isinstance(b, VSeq):
             idx_d = self.deref(idx, st)
+            if isinstance(idx_d, VSeq) and isinstance(idx_d.etype, TBool):   # boolean mask: order preserving filter
+                from .libtorch import seq_filter
+                res = seq_filter(st, self, b.len, lambda p: idx_d.elem(p).t, b.elem, b.etype, "mask")
+                res.kind = b.kind
+                return [(st, self.fresh_list(res, st))]
             if isinstance(idx_d, VSeq):   # gather: a[p]
                 res = VSeq(idx_d.len, lambda k: b.elem(to_int(idx_d.elem(k))), b.etype)
                 return [(st, self.fresh_list(res, st))]
